@@ -336,3 +336,48 @@ func ruleAllParentsWalked(r *Run) {
 	}
 	r.check(n >= 1, "findMatch:parents-loop", fmt.Sprintf("%d loops over a merge node's parents", n), "the loop over the parents was not found", w.fpos(f))
 }
+
+// ---------------------------------------------------------------------------------------------
+// R5.13 — JSON object keys of arbitrary text are written by the encoder
+
+func init() {
+	register(ruleDef{ID: "R5.13", Prop: "C05", Tier: "quick", Floor: 1,
+		Title: "the JSON form of a key-value range carries every key: where the keys are arbitrary text (keyvalue), a JSON object key is produced by the JSON encoder, never by formatting the key between quotes",
+		Fn:    ruleJSONKeysEncoded})
+}
+
+func ruleJSONKeysEncoded(r *Run) {
+	w := r.W
+	nWriters, bad := 0, 0
+	for _, f := range w.RepoFuncs {
+		if relPkg(pkgPathOf(f)) != "datatype/keyvalue" || len(f.Blocks) == 0 || strings.HasSuffix(w.fposFile(f), "_test.go") {
+			continue
+		}
+		writesJSON := false
+		for _, c := range calls(f) {
+			o := calleeObj(c)
+			if o == nil || o.Pkg() == nil {
+				continue
+			}
+			if o.Pkg().Path() == "encoding/json" && (o.Name() == "Marshal" || o.Name() == "Valid") {
+				writesJSON = true
+			}
+			if o.Pkg().Path() != "fmt" || !strings.HasPrefix(o.Name(), "Sprintf") && !strings.HasPrefix(o.Name(), "Fprintf") {
+				continue
+			}
+			for _, a := range c.Common().Args {
+				if s, ok := constString(a); ok && strings.Contains(s, `"%s":`) {
+					bad++
+					r.violation(fmt.Sprintf("%s:json-key-by-formatting#%d", fname(f), bad),
+						"a JSON object key is produced by formatting the key between double quotes: a key that contains a quote, a backslash or a control character makes the whole range answer an invalid document (the keys of the interval cannot be read back)", w.pos(c.Pos()))
+				}
+			}
+		}
+		if writesJSON {
+			nWriters++
+		}
+	}
+	if bad == 0 {
+		r.ok("keyvalue:json-keys-encoded", fmt.Sprintf("%d functions of keyvalue emit JSON, none formats a key between quotes", nWriters), "-")
+	}
+}
